@@ -288,8 +288,8 @@ func paramIs(pa *ssa.Parameter) func(ssa.Value) bool {
 func c10(r *core.Run) {
 	defer c10Extra(r)
 	p := r.P
-	r.Explanation = "Decides on every path: SetTimer/MoveTimer/RemoveTimer reach their channel send only with delay > 0 and key != nil and otherwise return ErrArgument touching nothing; every operation returns ErrClosed exactly on its stopChannel arm and nil on its send arm, carries its arguments in the right fields, Stop closes stopChannel and the owner loop leaves on it; wheel state (slots, tickedPos, timers, entries) is accessed only by functions that run solely on behalf of the single owner goroutine started once in the constructor; an entry fires only if not removed, circle ≤ 0 and diff ≤ 0 and is then unlinked from slot and index; remove sets the tombstone and drops the index entry; drain unlinks every entry and hands over only live ones; placement formula pos=(tickedPos+d/I) mod N, circle=(d/I−1)/N, tick advances tickedPos mod N before scanning that slot, the timers index always records the slot an entry was linked into, circle counts down by one; every value stored to timingEntry.diff lies in [0, N−1] for symbolic N."
-	r.NotDecided = "the tick at which a moved or re-set task fires as such (needs the arithmetic of three runtime positions); histories; the SafeMap and container/list implementations; non-negativity of the dividends of `% numSlots`."
+	r.Explanation = "Decides on every path: SetTimer/MoveTimer/RemoveTimer reach their channel send only with delay > 0 and key != nil and otherwise return ErrArgument touching nothing; every operation returns ErrClosed exactly on its stopChannel arm and nil on its send arm, carries its arguments in the right fields, Stop closes stopChannel and the owner loop leaves on it; wheel state (slots, tickedPos, timers, entries) is accessed only by functions that run solely on behalf of the single owner goroutine started once in the constructor; an entry fires only if not removed, circle ≤ 0 and diff ≤ 0 and is then unlinked from slot and index; remove sets the tombstone and drops the index entry; drain unlinks every entry and hands over only live ones; placement formula pos=(tickedPos+d/I) mod N, circle=(d/I−1)/N, tick advances tickedPos mod N before scanning that slot, the timers index always records the slot an entry was linked into, circle counts down by one; every value stored to timingEntry.diff lies in [0, N−1] for symbolic N; the runner of lib/threading that the drain handler hands the drain function's calls to gives its concurrency slot back through a deferred call registered before the task runs (a panicking drain function does not use the slots up and block the owner loop)."
+	r.NotDecided = "the tick at which a moved or re-set task fires as such (needs the arithmetic of three runtime positions); histories; the SafeMap and container/list implementations; non-negativity of the dividends of `% numSlots`; a concurrency bound of the drain runner that is not a blocking send/receive on a channel kept in a struct field (e.g. a select, a semaphore type) is not recognised and nothing is claimed for it."
 
 	t, why := resolveTW(p)
 	need := func(o *core.O) bool {
